@@ -148,6 +148,36 @@ pub fn dispatch(p: &[String]) -> String {
             let v = m.header.as_ref().map(|h| h.version());
             format!("{{\"version\": {}, \"word\": {}}}", v.map_or("null".to_string(), |(a, c)| format!("[{}, {}]", a, c)), words.get(1).copied().unwrap_or(0))
         }
+        "lift_words" => {
+            // lift_words <hex of a whole module>: load, lift, and print the structured module's parts with {:?}
+            let bytes = unhex(&p[1]);
+            match rspirv::dr::load_bytes(&bytes) {
+                Err(e) => format!("{{\"loaded\": false, \"error\": {}}}", jstr(&format!("{:?}", e))),
+                Ok(m) => match rspirv::lift::LiftContext::convert(&m) {
+                    Err(e) => format!("{{\"loaded\": true, \"lifted\": false, \"error\": {}}}", jstr(&format!("{:?}", e))),
+                    Ok(sm) => format!(
+                        "{{\"loaded\": true, \"lifted\": true, \"version\": {}, \"capabilities\": {}, \"memory_model\": {}, \"types\": {}, \"constants\": {}, \"ops\": {}, \"functions\": {}}}",
+                        sm.version,
+                        jstr(&format!("{:?}", sm.capabilities)),
+                        jstr(&format!("{:?}", sm.memory_model)),
+                        jstr(&format!("{:?}", sm.types)),
+                        jstr(&format!("{:?}", sm.constants)),
+                        jstr(&format!("{:?}", sm.ops)),
+                        jstr(&format!(
+                            "[{}]",
+                            sm.functions
+                                .iter()
+                                .map(|f| format!(
+                                    "Function {{ control: {:?}, result: {:?}, parameters: {:?}, blocks: {:?}, start_block: {:?} }}",
+                                    f.control, f.result, f.parameters, f.blocks, f.start_block
+                                ))
+                                .collect::<Vec<_>>()
+                                .join(", ")
+                        ))
+                    ),
+                },
+            }
+        }
         "storage_step" => storage_step(&p[1], if p.len() > 2 { &p[2] } else { "-" }),
         "lift_probe" => generated::lift_probe(p[1].parse::<u32>().unwrap_or(0)),
         "disas_operand" => generated::disas_operand(&p[1], p[2].parse::<u64>().unwrap_or(0)),
